@@ -79,31 +79,42 @@ def balance_assumption(sym, nodes):
     return AND(EQ(dh, 0), EQ(dc, 0))
 
 
-def sym_xh_reaction(E, n, nh, omax=1, els=("C", "O"), no_relay=False):
+def sym_xh_reaction(E, n, nh, omax=1, els=("C", "O"), no_relay=False, free=False):
     """a reaction whose centre hydrogens are all explicit: n heavy atoms (symbolic element, implicit count equal on both
     sides, bond orders per side) and nh explicit hydrogens, each bonded on either side to a solver-chosen heavy atom or
-    (the first two) to each other (H-H); at least one hydrogen changes its partner.  Returns (G, H, hyd, att)."""
-    G, H, rs = sym_reaction(E, "r", n, els=els, hs=(0, 1), cs=(0,), orders=tuple(range(omax + 1)))
+    (the first two) to each other (H-H); at least one hydrogen changes its partner.  free=True: a hydrogen may also be
+    free on a side (-1), as a proton or a hydride (solver-chosen), the heavy atoms then carry charges in {-1,0,1} per side
+    and the total charge is conserved.  Returns (G, H, hyd, att)."""
+    G, H, rs = sym_reaction(E, "r", n, els=els, hs=(0, 1), cs=(-1, 0, 1) if free else (0,), orders=tuple(range(omax + 1)))
     nodes = list(G.nodes)
     E.assume(AND([EQ(rs["h"]["G", v], rs["h"]["H", v]) for v in nodes]))
     hyd = [n + 1 + j for j in range(nh)]
     att = {}
     heavy_opts = list(range(1, n + 1))
+    q = {hv: (int(E.choice("q%d" % j, [1, -1])) if free else 0) for j, hv in enumerate(hyd)}
     for side, g in (("G", G), ("H", H)):
         for j, hv in enumerate(hyd):
             g.add_node(hv, element="H", aromatic=False, hcount=0, charge=0, atom_map=hv)
             # 0 = bonded to the other hydrogen of the first pair (H-H); a third hydrogen always sits on a heavy atom
-            att[side, hv] = int(E.choice("a%s%d" % (side, j), heavy_opts + ([0] if nh >= 2 and j < 2 else [])))
+            att[side, hv] = int(E.choice("a%s%d" % (side, j), heavy_opts + ([0] if nh >= 2 and j < 2 else [])
+                                         + ([-1] if free else [])))
         if nh >= 2:
             E.assume((att[side, hyd[0]] == 0) == (att[side, hyd[1]] == 0))
         for hv in hyd:
             if att[side, hv] == 0:
                 g.add_edge(hyd[0], hyd[1], order=1)
+            elif att[side, hv] == -1:
+                g.nodes[hv]["charge"] = q[hv]
             else:
                 g.add_edge(att[side, hv], hv, order=1)
+    if free:
+        E.assume(any(att[side, hv] == -1 for side in ("G", "H") for hv in hyd))
+        E.assume(all(q[hv] == 1 or any(att[side, hv] == -1 for side in ("G", "H")) for hv in hyd))  # q unused => fixed
+        tot = lambda side, g: SUM([rs["c"][side, v] for v in nodes]) + sum(g.nodes[hv]["charge"] for hv in hyd)
+        E.assume(EQ(tot("G", G), tot("H", H)))
     E.assume(any(att["G", hv] != att["H", hv] for hv in hyd))
     if nh >= 2:  # the first two hydrogens are interchangeable: one representative per swap
-        E.assume((att["G", hyd[0]], att["H", hyd[0]]) <= (att["G", hyd[1]], att["H", hyd[1]]))
+        E.assume((att["G", hyd[0]], att["H", hyd[0]], q[hyd[0]]) <= (att["G", hyd[1]], att["H", hyd[1]], q[hyd[1]]))
     if no_relay:
         # the library counts the hydrogens on a heavy atom, it does not tell them apart: a reaction in which an atom gives
         # one hydrogen away and receives another one is rendered by its net effect.  Exclude those where the changed
@@ -179,27 +190,64 @@ def its_iso(a, b):
     degb = sorted(sum(1 for k in eb if v in k) for v in vb)
     if dega != degb:
         return False
+    # candidate images per node: same degree and a label that is not concretely different; then a backtracking search
+    # over adjacency-consistent assignments (each complete assignment contributes one disjunct)
+    nbr_a = {v: [tuple(k - {v})[0] for k in ea if v in k] for v in va}
+    deg_b = {v: sum(1 for k in eb if v in k) for v in vb}
+    cand = {}
+    for v in va:
+        cs = []
+        for w in vb:
+            if len(nbr_a[v]) != deg_b[w]:
+                continue
+            c = EQ(na[v], nb[w])
+            if c is False:
+                continue
+            cs.append((w, c))
+        if not cs:
+            return False
+        cand[v] = cs
+    order = sorted(va, key=lambda v: len(cand[v]))
     alts = []
-    for img in itertools.permutations(vb):
-        f = dict(zip(va, img))
-        ok = True
-        for k in ea:
-            u, v = tuple(k)
-            if frozenset((f[u], f[v])) not in eb:
-                ok = False
-                break
-        if not ok:
-            continue
-        conj = [EQ(na[v], nb[f[v]]) for v in va]
-        if any(c is False for c in conj):
-            continue
-        for k, oa in ea.items():
-            u, v = tuple(k)
-            conj.append(EQ(oa, eb[frozenset((f[u], f[v]))]))
-        c = AND(conj)
-        if c is True:
-            return True
-        alts.append(c)
+    found_true = [False]
+
+    def rec(i, f, conj):
+        if found_true[0]:
+            return
+        if i == len(order):
+            c = AND(conj)
+            if c is True:
+                found_true[0] = True
+            elif c is not False:
+                alts.append(c)
+            return
+        v = order[i]
+        for w, c in cand[v]:
+            if w in f.values():
+                continue
+            extra = [] if c is True else [c]
+            ok = True
+            for u in nbr_a[v]:
+                if u in f:
+                    k2 = frozenset((f[u], w))
+                    if k2 not in eb:
+                        ok = False
+                        break
+                    ce = EQ(ea[frozenset((u, v))], eb[k2])
+                    if ce is False:
+                        ok = False
+                        break
+                    if ce is not True:
+                        extra.append(ce)
+            if not ok:
+                continue
+            f[v] = w
+            rec(i + 1, f, conj + extra)
+            del f[v]
+
+    rec(0, {}, [])
+    if found_true[0]:
+        return True
     return OR(alts)
 
 
